@@ -137,46 +137,53 @@ def corpus_modify_then_pull(ctx):
     return []
 
 
+def one_history(ctx, e, hseed):
+    """a random history, then fault-free rounds to a fixed point; returns (log, rounds, [(key, problem)])"""
+    import random
+    hr = random.Random(hseed)
+    case, p7, p8, log = c07.run_history(ctx, e, hr, hr.randint(6, 25))
+    # operator activity and faults stop; transports work (scripted rsync / hard links)
+    case.set_tools("rsync-only", "ok")
+    sig = dharness.state_sig(case)
+    rounds = 0
+    converged = False
+    raised = None
+    while rounds < MAX_ROUNDS:
+        try:
+            dharness.round_all(case)
+        except Exception as ex:  # noqa
+            raised = f"{type(ex).__name__}: {ex}"
+            break
+        rounds += 1
+        s2 = dharness.state_sig(case)
+        if s2 == sig:
+            converged = True
+            break
+        sig = s2
+    os.environ["PATH"] = "/usr/local/bin:/usr/bin:/bin"
+    if raised:
+        return log, rounds, [("round-raised:" + raised[:30], f"a fault-free round raised {raised}")]
+    if not converged:
+        return log, rounds, [("no-fixed-point", f"no fixed point within {MAX_ROUNDS} fault-free rounds (state keeps changing)")]
+    out = []
+    for p in classify_residue(case):
+        out.append(("request-shadowed" if p.startswith("SHADOWED") else "residue:" + p.split("(")[0][:40].replace(" ", "_"), p))
+    return log, rounds, out
+
+
 def run(ctx):
     ok = common.proof_stage(ctx, MODULE)
-    rng = ctx.rng
     nh = 110 if ctx.quick() else 2500
     dist = {}
     with envmod.Env() as e:
         for i in range(nh):
-            case, p7, p8, log = c07.run_history(ctx, e, rng, rng.randint(6, 25))
-            # operator activity and faults stop; transports work (scripted rsync / hard links)
-            case.set_tools("rsync-only", "ok")
-            sig = dharness.state_sig(case)
-            rounds = 0
-            converged = False
-            raised = None
-            while rounds < MAX_ROUNDS:
-                try:
-                    dharness.round_all(case)
-                except Exception as ex:  # noqa
-                    raised = f"{type(ex).__name__}: {ex}"
-                    break
-                rounds += 1
-                s2 = dharness.state_sig(case)
-                if s2 == sig:
-                    converged = True
-                    break
-                sig = s2
-            os.environ["PATH"] = "/usr/local/bin:/usr/bin:/bin"
+            hseed = f"{ctx.prop}-{ctx.seed}-h{i}"
+            log, rounds, probs = one_history(ctx, e, hseed)
             dist[rounds] = dist.get(rounds, 0) + 1
             ctx.count(f"rounds-to-fixed-point={rounds}")
             ctx.case(tuple(log), nontrivial=len(log) > 4, sample={"history": log[:20], "rounds_to_fixed_point": rounds} if i == 0 else None)
-            if raised:
-                ctx.violation("round-raised:" + raised[:30], f"a fault-free round raised {raised}", {"kind": "dhistory", "history": log})
-                continue
-            if not converged:
-                ctx.violation("no-fixed-point", f"no fixed point within {MAX_ROUNDS} fault-free rounds (state keeps changing)",
-                              {"kind": "dhistory", "history": log})
-                continue
-            for p in classify_residue(case):
-                key = "request-shadowed" if p.startswith("SHADOWED") else "residue:" + p.split("(")[0][:40].replace(" ", "_")
-                ctx.violation(key, p, {"kind": "dhistory", "history": log})
+            for key, p in probs:
+                ctx.violation(key, p, {"kind": "dhistory", "hseed": hseed, "history": log})
         os.environ["PATH"] = "/usr/local/bin:/usr/bin:/bin"
     for p in corpus_modify_then_pull(ctx):
         ctx.violation("modify-md5-nulls-size", p, {"kind": "corpus", "name": "file modify --md5 then pull"})
@@ -195,5 +202,22 @@ def run(ctx):
 
 
 def replay(ctx, path):
-    print(json.dumps(json.load(open(path)), indent=1)[:4000])
-    return 1
+    """re-run the recorded history + fault-free rounds (same per-history seed) on the current tree"""
+    d = json.load(open(path))
+    print(json.dumps({k: d[k] for k in d if k != "history"}, indent=1)[:3000])
+    if d.get("kind") == "corpus":
+        with envmod.Env() as e:
+            probs = corpus_modify_then_pull(ctx) if "modify" in d.get("name", "") else corpus_shadowed(e)
+        for p in probs:
+            print("VIOLATION-REPRODUCED:", p)
+        return 1 if probs else 0
+    if "hseed" not in d:
+        return 1
+    with envmod.Env() as e:
+        log, rounds, probs = one_history(ctx, e, d["hseed"])
+    for l in log:
+        print("  ", l[:200])
+    print("rounds to fixed point:", rounds)
+    for key, p in probs:
+        print("VIOLATION-REPRODUCED:", p)
+    return 1 if probs else 0
